@@ -194,11 +194,18 @@ def finding_class(pre_snap, op, res):
     else:
         n = op["n"]
     in_attach_phase = None
-    if k == "sc" and "pre_attach_children" in kinds:
-        in_attach_phase = kinds.index("pre_attach_children")
-    if k == "sc" and in_attach_phase is not None and len(hits) >= 2 and hits[0] >= in_attach_phase:
-        return "K4"
+    restore_start = None
+    if k == "sc":
+        if "pre_attach_children" in kinds:
+            in_attach_phase = kinds.index("pre_attach_children")
+        # the restore (`self.children = old_children`) re-enters the setter: its deleter fires a second
+        # _pre_detach_children on n
+        pdc = [i for i, e in enumerate(log) if e[0] == "pre_detach_children" and e[1] == n]
+        if len(pdc) >= 2:
+            restore_start = pdc[1]
     if res["res"] == "RecursionError":
+        return "K4"
+    if restore_start is not None and any(h >= restore_start for h in hits):
         return "K4"
     if k == "sp":
         if hits and log[hits[0]][0] == "pre_attach" and pre_snap[n][0] is not None and isinstance(op.get("v"), int):
@@ -211,9 +218,8 @@ def finding_class(pre_snap, op, res):
                 return "K2"
             return None
     if k == "sc" and in_attach_phase is not None:
-        end = hits[0] if hits else len(log)
-        if len(hits) <= 1 and (not hits or hits[0] >= in_attach_phase):
-            for e in log[in_attach_phase:end]:
-                if e[0] == "post_detach" and e[2] != [n]:
-                    return "K3"
+        end = restore_start if restore_start is not None else len(log)
+        for e in log[in_attach_phase:end]:
+            if e[0] == "post_detach" and e[2] != [n]:
+                return "K3"
     return None
